@@ -18,15 +18,21 @@ ByOp ==
     [] Op[1] = "Subclass"      -> Subclass(Op[2], Op[3], Op[4])
     [] Op[1] = "AppendField"   -> AppendField(Op[2], Op[3], Op[4])
     [] Op[1] = "InsertField"   -> InsertField(Op[2], Op[3], Op[4])
+    [] Op[1] = "Publish"       -> Publish(Op[2])
     [] OTHER -> FALSE
 \* JSON records arrive with the same field names; compare projection by projection
 SameView(v, w) == Len(v) = Len(w) /\ \A j \in 1..Len(v) :
    /\ v[j].kind = w[j].kind /\ v[j].base = w[j].base /\ v[j].attrs = w[j].attrs /\ v[j].verd = w[j].verd
    /\ Len(v[j].fields) = Len(w[j].fields)
    /\ \A k \in 1..Len(v[j].fields) : v[j].fields[k] = w[j].fields[k]
+\* type names (of the model and of its parts) as logged after every step: an operation other than Publish renames
+\* nothing; Publish(i) renames at most parts of i's lineage - in particular never a part of an unrelated array or class
+NamesBefore == IF l = 1 THEN TraceLog[tid].names0 ELSE St(l - 1).names
+NamesFrame == \A j \in 1..Len(NamesBefore) :
+                 (St(l).names[j] # NamesBefore[j]) => (Op[1] = "Publish" /\ j \in Lineage(pool, Op[2]))
 TInit == Init /\ tid \in 1..Len(TraceLog) /\ l = 1
 TNext == /\ l <= Len(TraceLog[tid].steps) /\ "view" \in DOMAIN St(l)
-         /\ ByOp /\ SameView(view', St(l).view)
+         /\ ByOp /\ SameView(view', St(l).view) /\ NamesFrame
          /\ l' = l + 1 /\ UNCHANGED tid
 TSpec == TInit /\ [][TNext]_<<vars, tid, l>>
 Report == /\ PrintT(<<"AT", tid, l>>)
